@@ -9,7 +9,9 @@ RULE = ("K: grids of 1..8 cells per axis with structured edge kinds (integer / d
         "interior points and out-of-range points; length_to_cell_count (incl. negative); bounds_for_center / "
         "bounds_for_anchor for every size 1..n plus 0, -1, n+1 and positions -1,0,1,random,beyond; anchor_coordinate; "
         "axis_extent; centers/widths; face_area; cell_volume; constructor validation, is_uniform / uniform_spacing / "
-        "min_spacings / cfl_time_step (also through SimulationConfig.time_step_duration); reduce_symmetric for every "
+        "min_spacings / cfl_time_step / SimulationConfig.has_nonuniform_grid and time_step_duration, incl. grids whose widths "
+        "deviate from the first x cell in either direction (only narrower, only wider, both; one axis; one thin or fat cell "
+        "at an end or inside; coarse rim with refined centre; deviations 3e-5..0.5 around the 1e-4 tolerance); reduce_symmetric for every "
         "symmetry pattern. Discrete outputs compared exactly with the model, binary64 outputs to 1e-12. Every case is "
         "also judged by an independent Python oracle of the property statement (brute force over all candidates, "
         "telescoping sums, the CFL inequality, documented uniformity/reduction behaviour). non-trivial = tie, "
@@ -195,9 +197,10 @@ def impl(case):
         if op == "grid":
             j = J()
             dt = float(g.cfl_time_step(case["cf"]))
+            cfg = j["fdtdx"].SimulationConfig(time=1e-12, grid=g, courant_factor=case["cf"], backend="cpu",
+                                              dtype=j["jnp"].float64)
+            nonuni_cfg = bool(cfg.has_nonuniform_grid)
             if case.get("via_config"):
-                cfg = j["fdtdx"].SimulationConfig(time=1e-12, grid=g, courant_factor=case["cf"], backend="cpu",
-                                                  dtype=j["jnp"].float64)
                 dt = float(cfg.time_step_duration)
             us = None
             if g.is_uniform:
@@ -208,7 +211,8 @@ def impl(case):
                     us = "no-raise"
                 except ValueError:
                     us = None
-            return {"uniform": bool(g.is_uniform), "spacing": us, "mins": [float(x) for x in g.min_spacings],
+            return {"uniform": bool(g.is_uniform), "nonuniform_cfg": nonuni_cfg, "spacing": us,
+                    "mins": [float(x) for x in g.min_spacings],
                     "min": float(g.min_spacing), "dt": dt, "shape": list(g.shape)}
         if op == "symred":
             r = g.reduce_symmetric(tuple(case["sym"]))
@@ -276,6 +280,7 @@ def compare(ctx, case, got, rep):
     if op == "grid":
         t = rep.split()
         ok = ctx.expect_equal(op + ".uniform", case, "1" if got["uniform"] else "0", t[0])
+        ok &= ctx.expect_equal(op + ".has_nonuniform_grid", case, "0" if got["nonuniform_cfg"] else "1", t[0])
         if got["uniform"] and ok:
             ok &= ctx.expect_close(op + ".spacing", case, [got["spacing"]], [h2f(t[1])], tol=1e-15, floor=1e-300)
         else:
@@ -314,10 +319,15 @@ def oracle(case, got):
         s = axes[0][1] - axes[0][0]
         dev = max(abs((y - x) - s) for a in axes for x, y in zip(a, a[1:]))
         floor = EPS8 * max(abs(x) for a in axes for x in a)
+        if got["nonuniform_cfg"] == got["uniform"]:
+            return "config.has_nonuniform_grid is not the negation of grid.is_uniform"
         if dev <= 0.5e-4 * s and not got["uniform"]:
             return f"grid with width deviation {dev / s:.2e} (< 1e-4) not detected as uniform"
         if dev > 1.01e-4 * s + floor and got["uniform"]:
-            return f"grid with width deviation {dev / s:.2e} (> 1e-4) detected as uniform"
+            lo = min((y - x) - s for a in axes for x, y in zip(a, a[1:]))
+            hi = max((y - x) - s for a in axes for x, y in zip(a, a[1:]))
+            return (f"grid with width deviation {dev / s:.2e} (> 1e-4; narrowest cell {lo / s:+.2e}, widest {hi / s:+.2e} "
+                    f"relative to the first x cell) detected as uniform, uniform_spacing = {got['spacing']!r}")
         if got["uniform"] and not (abs(got["spacing"] - s) <= 0.5000001e-14):
             return f"uniform_spacing {got['spacing']!r} is not the nominal spacing {s!r} rounded to 14 decimals"
         if (not got["uniform"]) and got["spacing"] is not None:
@@ -511,6 +521,50 @@ def cases_for_grid(rng, axes, kinds, scale, rich=True):
     return out
 
 
+def widths_to_edges(w, o=0.0):
+    e = [o]
+    for x in w:
+        e.append(e[-1] + x)
+    return e
+
+
+def deviation_cases(rng, thorough=False):
+    """grids whose widths deviate from the FIRST x cell (the reference of the uniformity rule) in either direction:
+    only narrower, only wider, both; on one axis only; a single thin / fat cell at either end or inside; a coarse rim with
+    a refined centre; deviations around the 1e-4 tolerance and gross ones; two scales"""
+    out = []
+    devs = [3e-5, 8e-5, 1.3e-4, 5e-4, 0.05, 0.5]
+    patterns = ["last", "first", "middle", "rim", "all-but-first"]
+    k = 0
+    for direction in ("narrow", "wide", "both"):
+        for a in range(3):
+            for pat in patterns:
+                for dev in (devs if thorough else [devs[(k + t) % len(devs)] for t in (0, 3)]):
+                    k += 1
+                    sc = [1.0, 2.5e-8][k % 2]
+                    n = 4 + k % 3
+                    w = [[sc] * n for _ in range(3)]
+                    sgn = {"narrow": [-1.0], "wide": [1.0], "both": [-1.0, 1.0]}[direction]
+                    idx = {"last": [n - 1], "first": [0], "middle": [n // 2], "rim": list(range(1, n - 1)),
+                           "all-but-first": list(range(1, n))}[pat]
+                    if a == 0 and pat == "first":
+                        idx = [1]            # cell 0 of x IS the reference; deviate its neighbour instead
+                    for t, i in enumerate(idx):
+                        w[a][i] = sc * (1.0 + sgn[t % len(sgn)] * dev)
+                    axes = [widths_to_edges(w[b], o=-(k % 4) * sc) for b in range(3)]
+                    out.append({"op": "grid", "axes": axes, "scale": sc, "cf": [0.99, 1.0][k % 2], "via_config": k % 3 == 0,
+                                "tag": f"dev:{direction}"})
+    # the shapes named in the report: coarse rim / refined centre on every axis, one thin end cell
+    for sc in (1.0, 5e-8):
+        rim = widths_to_edges([sc, sc, 0.5 * sc, 0.25 * sc, 0.5 * sc, sc, sc])
+        out.append({"op": "grid", "axes": [rim, rim, rim], "scale": sc, "cf": 0.99, "via_config": True, "tag": "dev:graded"})
+        thin = widths_to_edges([sc, sc, sc, 0.1 * sc])
+        uni = widths_to_edges([sc] * 4)
+        out.append({"op": "grid", "axes": [uni, uni, thin], "scale": sc, "cf": 1.0, "via_config": False, "tag": "dev:thin-end"})
+        out.append({"op": "grid", "axes": [thin, uni, uni], "scale": sc, "cf": 1.0, "via_config": True, "tag": "dev:thin-end"})
+    return out
+
+
 def invalid_grid_cases(rng):
     out = []
     good = [0.0, 1.0, 2.0]
@@ -557,6 +611,7 @@ def run(ctx):
             ax3 = [[i * sc for i in range(4)] for _ in range(3)]
             ax3[a][3] = ax3[a][2] + sc * (1.0 + dev)
             cases += [c for c in cases_for_grid(ctx.rng, ax3, ["thresh"] * 3, sc, rich=False) if c["op"] == "grid"]
+    cases += deviation_cases(ctx.rng, thorough=ctx.thorough)
     for gi in range(ngrids):
         axes, kinds, scale = gen_grid(ctx.rng, nmax)
         cases += cases_for_grid(ctx.rng, axes, kinds, scale, rich=(gi % 3 == 0))
@@ -579,6 +634,12 @@ def search(ctx, hints):
                 ctx.violation(h, d)
                 return
     rng = ctx.rng.fork()
+    for case in deviation_cases(rng, thorough=True):
+        ctx.impl_property_evals += 1
+        d = oracle(case, impl(case))
+        if d:
+            ctx.violation(case, d)
+            return
     for nmax in (1, 2, 3, 4, 6, 8):                 # smallest grids first
         for _ in range(ctx.scale(25, 80)):
             axes, kinds, scale = gen_grid(rng, nmax)
